@@ -1,4 +1,5 @@
-"""C01..C15 (M1): the task pool."""
+"""C01..C15 (M1): the task pool.  Per-property generator profiles, corpus, sweeps, known-finding
+explanation."""
 from __future__ import annotations
 
 import glob
@@ -9,8 +10,81 @@ import random
 from core import VERIF
 
 MODEL = "pool"
-PROOF = {}
-SOURCES = ["src/asyncio_taskpool/pool.py"]
+SOURCES = ["src/asyncio_taskpool/pool.py", "src/asyncio_taskpool/internals/group_register.py",
+           "src/asyncio_taskpool/internals/helpers.py"]
+
+_COMMON_FILES = ["base/Base.v", "pool/PTypes.v", "pool/PRecords.v", "pool/PModel.v", "pool/PObs.v",
+                 "pool/PMon.v", "pool/PInv.v"]
+
+
+def _proof(pid, extra_files=(), theorems=None):
+    return {"module": f"Thm_{pid}", "theorems": theorems or [pid],
+            "files": _COMMON_FILES + list(extra_files) + [f"pool/Thm_{pid}.v"]}
+
+
+PROOF = {}   # filled in below, once the theorem files exist (see register_proofs)
+
+TRUSTED = [
+    "Coq 8.16.1 kernel (coqc; coqchk in the thorough tier); no native_compute",
+    "extraction to OCaml with ExtrOcamlBasic only (nat Peano, no Extract Constant); ocaml/pdriver.ml "
+    "(parsing / printing of labels and observations)",
+    "Python harness: harness/steploop.py (replaces only the event loop's outer iteration; Tasks, "
+    "Futures, Semaphore, gather are CPython 3.12.1's), harness/poolrun.py (harness-owned workers, "
+    "callbacks, argument iterables; observations through the public API only), harness/poolgen.py",
+    "hand-written model theories/pool/PModel.v of pool.py + the asyncio slice it uses: fidelity is "
+    "checked by lockstep correspondence on the traces explored in this run, not proved",
+]
+ASSUMPTIONS = [
+    "CPython 3.12.1 asyncio semantics (Task.cancel/_must_cancel, Semaphore hand-off, gather eager path)",
+    "preconditions of the theorems: no unlock() once gather_and_close() was requested (P-unlock); no "
+    "self-cancellation from a worker's final segment (P-self, open finding D11); no cancel of a group "
+    "from its own argument iterator (P-iter, excluded by C07's text); pool_size not reassigned "
+    "(except C15)",
+    "driver tasks (flush/gather_and_close/until_closed callers) are never cancelled; exceptions raised "
+    "by the argument iterator itself are not modelled",
+]
+RULE = ("corpus scenarios first, then random walks generated online against the implementation "
+        "(per-property operation profile, one PRNG per trace derived from VERIF_SEED), thorough tier "
+        "adds injection sweeps; a trace is non-trivial if at least one pool task started and ended; "
+        "distinct = distinct label sequences")
+
+PROFILES = {
+    "C01": {},
+    "C02": {"cancel": 5, "cancelgroup": 3, "flush": 3, "stop": 3},
+    "C03": {"cancel": 5, "cancelgroup": 2, "flush": 2, "user_op": 0.3},
+    "C04": {"lock": 2, "unlock": 1, "gac": 1.0, "cancel": 2, "cancelgroup": 1,
+            "kinds": ["task", "task", "simple"]},
+    "C05": {"kinds": ["task"], "cancel": 2, "cancelgroup": 1, "map_bias": 0.85},
+    "C06": {"cancel": 9, "valid_bias": 0.55, "stop": 1},
+    "C07": {"cancelgroup": 6, "cancelall": 2, "user_op": 0.4, "gac": 0.2},
+    "C08": {"gac": 3, "until": 1.5, "cancelgroup": 3, "lock": 0.5},
+    "C09": {"malformed": 0.12, "lock": 3, "unlock": 3, "gac": 1},
+    "C10": {"getids": 4, "cancelgroup": 3, "named": 0.7},
+    "C11": {"flush": 3},
+    "C12": {"flush": 3, "gac": 1, "raise_bias": 2.0},
+    "C13": {"flush": 6, "cancel": 4},
+    "C14": {"kinds": ["simple"], "stop": 8, "cancel": 3},
+    "C15": {"setsize": 4, "sizes": ["0", "1", "2", "3", "4", "inf"]},
+}
+
+# critical operations injected at every decision point of base runs (thorough tier)
+SWEEPS = {
+    "C01": ["apply num=2 bad=0 nonco=0 w=sp ecb=n ccb=n g=-", "start num=2"],
+    "C02": ["cancelall", "driver k=flush1", "stopall"],
+    "C03": ["cancelall", "driver k=flush0"],
+    "C04": ["lock", "driver k=gac1"],
+    "C05": ["cancelall", "driver k=flush1"],
+    "C06": ["cancel ids=0", "cancel ids=1,0", "cancel ids=0,9"],
+    "C07": ["cancelgroup g=A0.0", "cancelgroup g=A1.0", "cancelall", "cancelgroup g=S0"],
+    "C08": ["driver k=gac0", "driver k=gac1"],
+    "C09": ["lock", "unlock", "setsize v=neg"],
+    "C10": ["cancelgroup g=A0.0", "getids gs=A0.0,A1.0"],
+    "C11": ["driver k=flush1"],
+    "C12": ["driver k=flush0", "driver k=gac0"],
+    "C13": ["driver k=flush0", "driver k=flush1"],
+    "C14": ["stop n=1", "stop n=2", "stopall"],
+    "C15": ["setsize v=0", "setsize v=1", "setsize v=3", "setsize v=inf"],
+}
 
 
 def corpus(pid):
@@ -26,7 +100,8 @@ def job_corpus(pid, seed=0):
     import poolrun
     res = []
     for name, cfg, labels in corpus(pid):
-        res.append({"id": f"corpus-{name}", "lines": poolrun.run_trace(cfg, labels), "kind": "corpus"})
+        res.append({"id": f"corpus-{name}", "lines": poolrun.run_trace(cfg, labels),
+                    "kind": "corpus"})
     return res
 
 
@@ -34,7 +109,7 @@ def job_random(pid, seed, count, max_len, profile=None):
     import poolrun, poolgen
     rng = random.Random(seed)
     res = []
-    prof = poolgen.mk_profile(**(profile or {}))
+    prof = poolgen.mk_profile(**(profile if profile is not None else PROFILES.get(pid, {})))
     for i in range(count):
         src = poolgen.RandomSource(random.Random(rng.getrandbits(64)), prof, rng.randint(10, max_len))
         cfg = src.cfg()
@@ -44,8 +119,134 @@ def job_random(pid, seed, count, max_len, profile=None):
     return res
 
 
+def job_sweep(pid, seed, count, max_len):
+    """Exhaustive over placements: for each base run, inject each critical operation of the
+    property before every label of the run (one injection per replay)."""
+    import poolrun, poolgen
+    rng = random.Random(seed)
+    res = []
+    prof = poolgen.mk_profile(**PROFILES.get(pid, {}))
+    for i in range(count):
+        src = poolgen.RandomSource(random.Random(rng.getrandbits(64)), prof, rng.randint(10, max_len))
+        cfg = src.cfg()
+        r = poolrun.PoolRun(cfg, src)
+        r.main()
+        base = list(r.labels)
+        for inj in SWEEPS.get(pid, []):
+            w = inj.split()[0]
+            if (w in ("apply", "map") and cfg["kind"] != "task") or \
+               (w in ("start", "stop", "stopall") and cfg["kind"] != "simple"):
+                continue
+            for pos in range(len(base) + 1):
+                labels = base[:pos] + [inj] + base[pos:]
+                if inj.startswith("driver") and rng.random() < 0.5:
+                    # inline start of the driver (await from the caller's own coroutine)
+                    nd = sum(1 for l in base[:pos] if l.startswith("driver"))
+                    labels = base[:pos] + [inj, f"run D{nd}"] + base[pos:]
+                res.append({"id": f"sweep-{seed}-{i}-{w}-{pos}",
+                            "lines": poolrun.run_trace(cfg, labels), "kind": "sweep"})
+    return res
+
+
 def job_replay(pid, labels, cfg=None, seed=0):
     import poolrun
     if cfg is None:   # labels[0] is the cfg line
         cfg, labels = poolrun.parse_cfg_line(labels[0]), labels[1:]
     return [{"id": "replay", "lines": poolrun.run_trace(cfg, labels), "kind": "replay"}]
+
+
+def jobs(pid, tier, seed):
+    js = [("prop_pool", "job_corpus", {"pid": pid})]
+    if tier == "quick":
+        n_jobs, per_job, max_len = 16, 30, 80
+        n_sweep = 0
+    else:
+        n_jobs, per_job, max_len = 64, 320, 120
+        n_sweep = 32
+    base = seed * 100003 + int(pid[1:]) * 1009
+    for k in range(n_jobs):
+        js.append(("prop_pool", "job_random",
+                   {"pid": pid, "seed": base + k, "count": per_job, "max_len": max_len}))
+    for k in range(n_sweep):
+        js.append(("prop_pool", "job_sweep",
+                   {"pid": pid, "seed": base + 7000 + k, "count": 3, "max_len": 50}))
+    return js
+
+
+def label_kind(label):
+    w = label.split()
+    if w[0] == "run":
+        return "run:" + w[1][0]
+    return w[0]
+
+
+def nontrivial(lines):
+    return any("exit:" in ln for ln in lines) and any("start:" in ln for ln in lines)
+
+
+# taint flags (model ghosts) that put a trace outside a property's quantifier
+PRECOND = {f"C{i:02d}": ("self", "iter", "size", "unlock") for i in range(1, 16)}
+PRECOND["C15"] = ("self", "iter", "unlock")
+
+
+def taints(r):
+    out = set()
+    for ln in r.get("model_info", []):
+        if ln.startswith("@taint"):
+            for kv in ln.split()[1:]:
+                k, v = kv.split("=")
+                if v == "1":
+                    out.add(k)
+    return out
+
+
+def out_of_scope(pid, r):
+    """The trace violates a stated precondition of the property (decided by the model's ghost
+    flags; only meaningful when the implementation's stream equals the model's)."""
+    return r["diverge"] is None and bool(taints(r) & set(PRECOND[pid]))
+
+
+def explained(pid, known, r, t):
+    """Known-finding criterion (DESIGN §9.2): failing clause listed + signature holds +
+    implementation stream equals the model's."""
+    if r["diverge"] is not None or r["impl_mon"] is None:
+        return None
+    clause = r["impl_mon"][1]
+    tn = taints(r)
+    for f in known:
+        if clause not in f.get("clauses", []):
+            continue
+        sig = f.get("signature", {})
+        need = set(sig.get("taint", []))
+        if need and not (need & tn):
+            continue
+        if sig.get("model_agrees", True) and r["model_mon"] is None:
+            # the model must exhibit the same (refuted) behaviour
+            continue
+        return f["id"]
+    return None
+
+
+def extra_coverage(pid, traces, results):
+    import collections
+    ev = collections.Counter()
+    ctl = collections.Counter()
+    err = collections.Counter()
+    kinds = collections.Counter(t.get("kind", "?") for t in traces)
+    for t in traces:
+        for ln in t["lines"]:
+            if ";" not in ln:
+                continue
+            o = ln.split(";", 1)[1]
+            for tok in o.split():
+                if tok.startswith("ev=") and tok != "ev=-":
+                    for e in tok[3:].split(","):
+                        ev[e.split(":")[0]] += 1
+                elif tok.startswith("ctl="):
+                    ctl[tok[4:].rsplit(":", 1)[0]] += 1
+                elif tok.startswith("res=err:"):
+                    err[tok[8:]] += 1
+    tainted = sum(1 for r in results if out_of_scope(pid, r))
+    return {"event_histogram": dict(ev), "control_point_histogram": dict(ctl),
+            "error_kind_histogram": dict(err), "trace_kinds": dict(kinds),
+            "traces_outside_preconditions": tainted}
